@@ -44,6 +44,11 @@ def gen_x(rng):
         # fast paths in floor/ceil/round (seed C10-c); plus the same with a half added
         n, d = boundary.fraction_parts(rng)
         return BFraction(Fraction(n, d) + rng.choice([0, 0, 0, Fraction(1, 2), Fraction(-1, 2)]))
+    if rng.random() < 0.06:
+        # terminating denominators 2^a * 5^b with arbitrary numerators (bytes to MiB, 1/1048576 ...): decimal shortcuts in the
+        # rounding path (tables of powers of five, seed C10-f); spelled `p / q`
+        a, b = rng.choice([(rng.randint(1, 70), 0), (rng.randint(1, 40), rng.randint(0, 30)), (0, rng.randint(1, 30))])
+        return BFraction(Fraction(rng.choice([1, -1]) * rng.randint(1, 10 ** rng.randint(1, 12)), 2 ** a * 5 ** b))
     if r < 0.15:
         return Fraction(k)
     if r < 0.35:
